@@ -18,6 +18,7 @@ import sys
 VERIF = os.path.dirname(os.path.dirname(os.path.abspath(__file__)))
 REPO = "/repo"
 SCRATCH = "/tmp/seedrun"
+SNAPSHOT = os.path.join(SCRATCH, "_snapshot.%d" % os.getpid())      # /verif as it was when the run started (edits during the run do not reach the jobs)
 
 
 def sh(cmd, cwd=None, env=None, timeout=7200):
@@ -44,7 +45,7 @@ def one(sid, tier, seeds):
         rc, out = sh(f"git apply {d}/patch.diff", cwd=wt)
         if rc != 0:
             return sid, pid, None, "NO-APPLY " + out[-200:]
-        sh(f"rsync -a --exclude .git --exclude replays --exclude seeded {VERIF}/ {vf}/")
+        sh(f"rsync -a {SNAPSHOT}/ {vf}/")
         env = dict(os.environ, PYG_REPO=wt, PYTHONPATH=wt)
         rc, out = sh(f"/venv/bin/python -B {d}/demo.py", cwd=wt, env=env, timeout=300)
         result["demo"] = out.strip().splitlines()[-1][:300] if out.strip() else ""
@@ -90,6 +91,7 @@ def main(argv):
     root = os.path.join(VERIF, "seeded")
     ids = ids or sorted(x for x in os.listdir(root) if os.path.isfile(os.path.join(root, x, "patch.diff")))
     os.makedirs(SCRATCH, exist_ok=True)
+    sh(f"rsync -a --delete --exclude .git --exclude replays --exclude seeded {VERIF}/ {SNAPSHOT}/")
     missed = []
     with concurrent.futures.ThreadPoolExecutor(jobs) as ex:
         for sid, pid, det, note in ex.map(lambda s: one(s, tier, seeds), ids):
@@ -97,6 +99,7 @@ def main(argv):
             if not det:
                 missed.append(sid)
     sh(f"git -C {REPO} worktree prune")
+    shutil.rmtree(SNAPSHOT, ignore_errors=True)
     print("missed:", " ".join(missed))
     return 0
 
